@@ -105,7 +105,7 @@ def carray_sizes(chk, ents):
                                   {"kernel": c.name, "declared": decl, "contract": c.sizes})
 
 
-def kernels_vs_c(chk, ents, st="float64"):
+def kernels_vs_c(chk, ents, st="float64", one_process=False):
     cplx = st.startswith("complex")
     npdt = {"float64": np.float64, "float32": np.float32, "complex128": np.complex128, "complex64": np.complex64}[st]
     opts = {} if st == "float64" else {"scalar_type": st}
@@ -196,7 +196,16 @@ def kernels_vs_c(chk, ents, st="float64"):
                 if [int(v) for v in ne.value_shape] != vs:
                     out["bad"].append({"what": f"expression value_shape: numba {list(ne.value_shape)} vs C {vs}"})
         return out
-    res = cjit.parallel_map(work, list(range(len(ents))))
+    if one_process:
+        # all entries generated one after the other in ONE process: state kept by the numba backend between kernels
+        # (caches keyed by table names, counters) must not leak from one module into the next
+        seq = cjit.parallel_map(lambda _: [work(i) for i in range(len(ents))], [0])
+        st0, rs = seq[0]
+        res = {i: ("ok", r) for i, r in enumerate(rs)} if st0 == "ok" else {i: (st0, rs) for i in range(len(ents))}
+        for r in (rs if st0 == "ok" else []):
+            r["name"] += ":after-others"
+    else:
+        res = cjit.parallel_map(work, list(range(len(ents))))
     for i, (st, r) in sorted(res.items()):
         if st != "ok":
             chk.notes.setdefault("errors", []).append(f"{ents[i].name}: {st}: {str(r)[:300]}")
@@ -216,6 +225,25 @@ def kernels_vs_c(chk, ents, st="float64"):
             else:
                 key = f"c18:{r['name']}:{w[:40]}"
             chk.violation(key, w, {"entry": r["name"], **b})
+
+
+def history_entries():
+    """Mass forms on ONE cell with elements of equal dof counts but different basis functions, so that per-kernel table names
+    (FE0_…, same rule id, same shape) coincide while their values differ."""
+    import basix.ufl
+    from ufl import FunctionSpace, TestFunction, TrialFunction, dx, inner
+    out = []
+    specs = [("RT", 1, None), ("N1curl", 1, None), ("DP", 1, None), ("P", 1, None), ("CR", 1, None),
+             ("P", 3, "equispaced"), ("P", 3, "gll_warped"), ("DP", 2, None), ("P", 2, None)]
+    for fam, deg, variant in specs:
+        def b(fam=fam, deg=deg, variant=variant):
+            m = corpus.mesh("triangle")
+            kw = {"lagrange_variant": getattr(basix.LagrangeVariant, variant)} if variant else {}
+            V = FunctionSpace(m, basix.ufl.element(fam, "triangle", deg, **kw))
+            u, v = TrialFunction(V), TestFunction(V)
+            return [inner(u, v) * dx]
+        out.append(corpus.Entry(f"hist_mass_{fam}{deg}{'_' + variant if variant else ''}", b, tags=("history",)))
+    return out
 
 
 def run(chk):
@@ -241,6 +269,8 @@ def run(chk):
         "conditional_tri", "multi_rule", "subdomains", "tensor_constant", "derivative_drop", "quadrature_element", "geometry_tri", "prism",
         "expr_grad_tri", "expr_rank1", "expr_tensor", "expr_facet", "expr_interval", "expr_two")]
     kernels_vs_c(chk, small if chk.tier == "quick" else ents)
+    # process history: modules generated after other modules in the same process (same cell, same rule, same table names)
+    kernels_vs_c(chk, history_entries(), one_process=True)
     # complex scalar types: complex literals / conj / real / imag / math functions go through type-specific formatter paths
     kernels_vs_c(chk, corpus.complex_forms(), "complex128")
     if chk.tier == "thorough":
